@@ -55,7 +55,15 @@ def run_typestate(ctx, m):
     roots = {}
     for name in ("place_order", "cancel_order", "modify_order"):
         f = m.book_fn(name)
-        roots[name] = ts.analyse(f, {}, q=operation_view(m, f))
+        # one run per side of the order the operation is about, on the whole-operation view specialised to that side
+        merged = {"exit": {}, "ret": None}
+        for S in ("Bid", "Ask"):
+            r = ts.analyse(f, {}, q=m.sv(f, S))
+            for k, v in r["exit"].items():
+                kk = next((k2 for k2 in merged["exit"] if repr(k2) == repr(k)), k)
+                merged["exit"][kk] = merged["exit"].get(kk, frozenset()) | v
+            merged["ret"] = r["ret"]
+        roots[name] = merged
     loaders = [f for f in ctx.prog.units() if f.name == "try_from" and "OrderBook" in (f.impl_self or "")
                and f.crate.name == "bourse_book"]
     for f in loaders:
